@@ -10,7 +10,7 @@
 (* C03 | src/mat.rs new, Index/IndexMut, transposed/transpose, diagonal,   *)
 (*       with_diagonal, broadcast_diagonal, trace, map/map2/apply/apply2,  *)
 (*       as_/numcast, From between layouts and sizes, into/from row/col    *)
-(*       array(s), as_(mut_)row/col_slice, gl_should_transpose, Display,   *)
+(*       array(s), as_(mut_)row/col_slice, as_(mut_)row/col_ptr, is_packed, gl_should_transpose, Display,   *)
 (*       Default/identity/zero                                             *)
 (***************************************************************************)
 EXTENDS VekMat
@@ -20,8 +20,9 @@ SetAtM(M, i, j, x) == [r \in 1 .. Len(M) |-> [c \in 1 .. Len(M) |-> IF r = i /\ 
 Apply(M, call) ==
     LET n == Len(M)  c == call.c IN
     CASE c \in {"transposed", "transpose", "rc", "cr", "RC", "CR"} -> Transp(M)
-      \* into_X_array then from_X_array, layout conversion, lossless casts: the same abstract matrix
-      [] c \in {"convert_layout", "rr", "cc", "RR", "CC", "as", "numcast"} -> M
+      \* into_X_array then from_X_array, layout conversion, lossless casts, out to and back from the interoperability
+      \* (mint) row / column matrix: the same abstract matrix
+      [] c \in {"convert_layout", "rr", "cc", "RR", "CC", "as", "numcast", "mint_r", "mint_c"} -> M
       [] c = "resize" -> Resize(M, call.arg)
       [] c = "identity" -> Idn(n)
       [] c = "zero" -> ZeroM(n)
@@ -34,6 +35,8 @@ Apply(M, call) ==
                       IN SetAtM(M, i, j, FAdd(M[j][i], FI(500)))
       \* writing 777 through the mutable flat view at the position of element (row 0, column 1)
       [] c = "slice_write" -> SetAtM(M, 1, 2, FI(777))
+      \* writing 888 through the raw mutable pointer at the position of element (row 1, column 0)
+      [] c = "ptr_write" -> SetAtM(M, 2, 1, FI(888))
 RECURSIVE Run(_, _, _)
 Run(M, calls, k) == IF k = 0 THEN M ELSE ForceM(Apply(Run(M, calls, k - 1), calls[k]))
 
@@ -50,5 +53,6 @@ ConcApply(lay, lines, call) ==      \* returns <<lay', lines'>>
          [] c = "rc" -> store(lay, UnflatCols(n, FlatRows(A)))
          [] c = "cr" -> store(lay, UnflatRows(n, FlatCols(A)))
          [] c = "slice_write" -> IF lay = "r" THEN <<lay, SetAtM(lines, 1, 2, FI(777))>> ELSE <<lay, SetAtM(lines, 2, 1, FI(777))>>
+         [] c = "ptr_write" -> IF lay = "r" THEN <<lay, SetAtM(lines, 2, 1, FI(888))>> ELSE <<lay, SetAtM(lines, 1, 2, FI(888))>>
          [] OTHER -> store(lay, Apply(A, call))
 =============================================================================
